@@ -214,6 +214,11 @@ fn run_replay(prop: &str, file: &Path) -> i32 {
                         1
                     }
                     Err(p) => {
+                        if p.rsplit_once(" @ ").map(|(_, l)| l.contains("ffuzzy/src/")).unwrap_or(false) {
+                            println!("failure: the library panicked on an in-contract call: {}", p);
+                            println!("VIOLATION property={} replay={}", prop, file.display());
+                            return 1;
+                        }
                         eprintln!("harness panic during replay: {}", p);
                         2
                     }
